@@ -410,6 +410,7 @@ func cmdCheck(args []string) int {
 		}
 		for _, o := range r.Obls {
 			if *prop != "" && len(o.Props) > 0 && !hasProp(o.Props, *prop) {
+				addA(fmt.Sprintf("%s: obligation %s (%s) is tagged %v and is not checked under %s; it is assumed here", r.Key, o.Name, firstN(o.Desc, 120), o.Props, *prop))
 				continue
 			}
 			total++
